@@ -250,7 +250,10 @@ public:
         return logic.isConstant(getEnode(er).getTerm());
     }
 
-    bool isValid(PTRef tr) override { return logic.isTheoryEquality(tr) || logic.isUP(tr) || logic.isDisequality(tr); }
+    // Boolean terms that occur as arguments of uninterpreted functions are asserted to and deduced by the E-graph as well
+    bool isValid(PTRef tr) override {
+        return logic.isTheoryEquality(tr) || logic.isUP(tr) || logic.isDisequality(tr) || logic.appearsInUF(tr);
+    }
 
 #ifdef STATISTICS
     void printMemStats (ostream &);
